@@ -44,6 +44,11 @@ fn run_case(check: &Check, pc: &Planned) -> CaseResult {
         Some(false) => check.bump(&format!("independent-decoder-DISAGREES:{name}"), 1),
         None => {}
     }
+    match info.session_accounting_ok {
+        Some(true) => check.bump("session-accounting-ok", 1),
+        Some(false) => check.bump("session-accounting-WRONG", 1),
+        None => {}
+    }
     if info.interleave_checked {
         check.bump("interleave-judged", 1);
     }
